@@ -157,7 +157,12 @@ def entry_points(chk, ex, clsname, which, found=None):
                 sets = [x for x in e if x[0] == "setattr" and x[2] == "rand_ptr"]
                 row(chk, "%s.add:threads-rand_ptr" % C, len(sets) == 1 and len(ks) == 1, "self.rand_ptr must be set to the kernel's return value", found)
     if "add_ngram" in which:
-        single("%s.add_ngram" % C, "add_ngram", [k1, ngram], NGRAM_KERNEL[C], lambda o: {"key": k1, "ngram": ngram})
+        rets = single("%s.add_ngram" % C, "add_ngram", [k1, ngram], NGRAM_KERNEL[C], lambda o: {"key": k1, "ngram": ngram})
+        if C in ("CountMinLog16", "CountMinLog8"):
+            for o, e in rets:
+                ks = kernel_calls(e)
+                sets = [x for x in e if x[0] == "setattr" and x[2] == "rand_ptr"]
+                row(chk, "%s.add_ngram:threads-rand_ptr" % C, len(sets) == 1 and len(ks) == 1, "self.rand_ptr must be set to the kernel's return value", found)
     if "query" in which and C in QUERY_KERNEL and C != "HeavyHitters":
         qk = [QUERY_KERNEL[C]] + (["countmin._counter2value"] if C != "CountMinLinear" else [])
         single("%s.query" % C, "query", [k1], qk, lambda o: {"key": k1})
